@@ -68,6 +68,10 @@ Proof.
   destruct (prefix_of_seq _ _ _ _ E) as [E1 L]. eexists; split; [exact L | exact E1].
 Qed.
 
+Corollary spsc_order_full s : Reach true s ->
+  sent s = seq 0 (sn (Sn s)) /\ exists k, k <= sn (Sn s) /\ rcvd s = seq 0 k.
+Proof. intro H. split; [exact (spsc_sender_sequence s H) | exact (spsc_received_in_order s H)]. Qed.
+
 (* ---- C06 (ii) / C07 (iii): no lost wake-up, both receiver kinds ---- *)
 
 (* thread receiver: blocked in thread::park without a token while a value is queued or the sender is
@@ -158,6 +162,11 @@ Proof. intros H D. apply (I_pd _ (inv_reach _ H)). auto. Qed.
 Theorem spsc_send_after_port_drop s : Reach true s -> sdead (Sn s) = true ->
   sp (Sn s) = SChk \/ (sp (Sn s) = SIdle /\ sres (Sn s) = false).
 Proof. intros H D. apply (I_s6 _ (inv_reach _ H) D). Qed.
+
+Corollary spsc_receiver_gone s : Reach true s ->
+  (ralive (R s) = false -> pdrop s = true) /\
+  (sdead (Sn s) = true -> sp (Sn s) = SChk \/ (sp (Sn s) = SIdle /\ sres (Sn s) = false)).
+Proof. intro H. split; [exact (spsc_port_dropped_flag s H) | exact (spsc_send_after_port_drop s H)]. Qed.
 
 (* ---- the code before the F6 repair: the coroutine receiver hangs although the sender is gone ---- *)
 Definition stuck (s : st) : Prop :=
